@@ -18,7 +18,9 @@ RULE = (
     "T: all ordered pairs of a 33-value universe (absent, every JSON type, int/float/bool look-alikes, nested containers) "
     "x 6 operators x operand forms (literal, @.x, $.x, value(@.x)); E: every atom (existence tests, comparisons over a "
     "21-comparable alphabet x 6 operators, match/search over a pattern pool) alone, under ! and parentheses, and every "
-    "&&/|| tree over 12 representative atoms to connective depth 2 (3); S: blanks at every S position. "
+    "&&/|| tree over 12 representative atoms to connective depth 2 (3); S: blanks at every S position; N: 26 number-literal spellings x 6 operators x both sides; "
+    "RX: match/search with subject and pattern taken from the candidate, over every ordered triple of 10 (subject, pattern) records "
+    "incl. patterns re refuses and non-strings (what one evaluation leaves in the shared function object meets every following one). "
     "state = distinct (query text, document); non-trivial = reference selects at least one child; "
     "oracle = locations and values of the selected children"
 )
@@ -193,10 +195,24 @@ def plan(tier, seed):
     for lo in range(0, nt, 400):
         shards.append(("E", tier, lo, min(nt, lo + 400)))
     shards.append(("N",))
+    for i in range(len(RX_RECS)):
+        shards.append(("RX", i))
     ns = len(spelling_exprs())
     for lo in range(0, ns, 2):
         shards.append(("S", 1 if tier == "quick" else 2, lo, min(ns, lo + 2)))
     return shards
+
+
+# (subject, pattern) records; the regular-expression functions are evaluated on every ordered triple of them, so that
+# whatever one evaluation leaves behind in the (environment-wide) function object meets every following one
+RX_RECS = [("x", "x"), ("x", "("), ("xy", "x"), ("x", "["), ("", "x*"), ("x", 1), (1, "x"), ("x\n", "x"), ("x", "x|y"), ("y", "x|y")]
+
+
+def rx_queries():
+    a, b = qa(C(N("a"))), qa(C(N("b")))
+    return [Q(C(N("arr")), C(F(call("match", a, b)))), Q(C(N("arr")), C(F(call("search", a, b)))),
+            Q(C(N("arr")), C(F(("not", call("match", a, b))))),
+            Q(C(N("arr")), C(F(("or", call("match", a, b), call("search", b, a)))))]
 
 
 def spelling_exprs():
@@ -275,6 +291,11 @@ def run_shard(shard, acc):
                     acc.count("number.%s" % ("some" if exp else "none"))
                     if bad:
                         acc.violation("N", bad[0], {"text": qtext, "literal": text, "doc": doc}, expected=exp, observed=bad[1])
+    elif kind == "RX":
+        r1 = RX_RECS[shard[1]]
+        docs = [{"arr": [{"a": x[0], "b": x[1]} for x in (r1, r2, r3)]} for r2 in RX_RECS for r3 in RX_RECS]
+        for q in rx_queries():
+            _eval("RX", q, spell.text(q), docs, acc, tag="rx")
     elif kind == "S":
         docs = filter_docs()
         o = spell.Opts(full_strings=False)
@@ -318,6 +339,8 @@ def REQUIRE(tier):
         req["op%s.some" % op] = 1
         req["op%s.none" % op] = 1
     req["number.some"] = 100
+    req["rx.some"] = 100
+    req["rx.none"] = 10
     for k in ("atom.test", "atom.cmp", "atom.call", "tree.and", "tree.or", "tree.not", "spell"):
         req[k + ".some"] = 1
         req[k + ".none"] = 1
